@@ -837,6 +837,8 @@ func (p *Program) eval(e *node) *Val {
 		return p.reinterpret(p.eval(e.kids[0]), e.t)
 	case "ctor":
 		return p.construct(e.t, p.evalArgs(e.kids))
+	case "tinit":
+		return p.initValue(e.t, e.kids[0])
 	case "init":
 		p.rtFail("brace initialiser without a target type")
 		return zero(tInt)
